@@ -16,7 +16,7 @@ import re
 from pathlib import Path
 
 from sa import norm
-from sa.absexec import AbsExec, Obj, Tok, Undecided
+from sa.absexec import AbsExec, Closure, Obj, Tok, Undecided
 from sa.errors import AnalysisError
 from sa.flow import Flow, Site, expand
 from sa.model import Func, Repo
@@ -156,7 +156,7 @@ def _dma_calls(f: Func):
 
 
 def proto(repo: Repo, chk: Check) -> None:
-    chk.rule("C05.proto", "every func.CallOp to a snax_dma_* runtime function passes exactly the parameters of its C prototype in runtime/include/snax_rt.h, and the external declaration the pass inserts has the same arity", floor=6)
+    chk.rule("C05.proto", "every func.CallOp to a snax_dma_* runtime function passes exactly the parameters of its C prototype in runtime/include/snax_rt.h, and the external declaration the pass inserts has the same arity", floor=4)
     protos = c_prototypes(chk.repo_root)
     if len(protos) < 2:
         raise AnalysisError(f"{HEADER}: fewer than two snax_dma prototypes found")
@@ -197,8 +197,10 @@ def proto(repo: Repo, chk: Check) -> None:
                 chk.result(arity == len(protos[name]), "C05.proto", key, f"{PASS}:{n.lineno}", f"external declaration of {name} has {arity} index inputs",
                            f"external declaration of {name} has {arity} inputs, the C prototype {len(protos[name])}")
                 # the declaration is only inserted when a call of exactly that name exists
-    if n_calls < 4:
-        raise AnalysisError(f"only {n_calls} DMA call sites found (4 confirmed by reading)")
+    called = {c.args[0].value for f in _funcs(repo) for c in _dma_calls(f)}  # type: ignore[attr-defined]
+    missing = sorted(set(protos) - called)
+    if n_calls < 2 or missing:
+        raise AnalysisError(f"only {n_calls} DMA call sites found; no call site for {missing} (every runtime DMA entry point has one, confirmed by reading)")
 
 
 # --------------------------------------------------------------------------- roles
@@ -222,12 +224,28 @@ def _alt_values(fl: Flow, site: Site, value: ast.expr, names: set[str]) -> list[
     """the value with re-used neutral locals replaced by their reaching definition, once per path alternative"""
     outs: dict[str, ast.expr] = {}
     for a in site.state.alts or []:
+        # re-used neutral locals, and neutral temporaries whose (already expanded) value belongs to ONE side only
         env = {k: v for k, v in a.env.items() if k in names and k not in site.shadow}
         x = expand(value, env)
         outs.setdefault(ast.unparse(x), x)
     if not outs:
         outs[ast.unparse(value)] = value
     return list(outs.values())
+
+
+def _through_helpers(fl: Flow, x: ast.expr) -> ast.expr:
+    """calls to resolvable repo helpers replaced by what they return, expressed over the arguments"""
+    y = fl._inline_returns(x, 2)
+
+    class Strip(ast.NodeTransformer):
+        def visit_Call(self, node: ast.Call) -> ast.AST:
+            self.generic_visit(node)
+            if isinstance(node.func, ast.Name) and node.func.id == "__inl__" and node.args and isinstance(node.args[0], ast.Call):
+                name = callee_name(node.args[0]) or "?"
+                return ast.Call(ast.Name("__inl__", ast.Load()), [ast.Constant(name), *node.args[1:]], [])
+            return node
+
+    return ast.fix_missing_locations(Strip().visit(y))
 
 
 def roles(repo: Repo, chk: Check) -> None:
@@ -306,7 +324,7 @@ def mirror(repo: Repo, chk: Check) -> None:
         "for every pair of variables whose names differ only in the role token, the definitions of the destination-side variable "
         "are the role-swapped images of the definitions of the source-side variable (re-used neutral locals expanded per path "
         "alternative; shape spellings identified under the established shape equality)",
-        floor=7,
+        floor=4,
     )
     n_pairs = 0
     for f in _funcs(repo):
@@ -333,15 +351,30 @@ def mirror(repo: Repo, chk: Check) -> None:
             n_pairs += 1
             chk.analysed(f.key)
 
-            def texts(name: str, swap: bool) -> dict[str, int]:
+            def texts(name: str, swap: bool, extra: set[str] = frozenset(), through_helpers: bool = False) -> dict[str, int]:  # type: ignore[assignment]
                 out: dict[str, int] = {}
                 for s, v in defs[name]:
                     nz = _shape_normaliser(s)
-                    for x in _alt_values(fl, s, v, neutral):
+                    for x in _alt_values(fl, s, v, neutral | set(extra)):
+                        if through_helpers:
+                            x = _through_helpers(fl, x)
                         out.setdefault(nz(role_text(x, swap)), s.line)
                 return out
 
             ta, tb = texts(a, True), texts(b, False)
+            if set(ta) != set(tb):
+                # neutral temporaries that only one side mentions (`_h1 = f(src..)` / `_h2 = f(dst..)`) stand for side-specific values: look through them
+                def names_of(name: str) -> set[str]:
+                    return {n.id for _, v in defs[name] for n in ast.walk(v) if isinstance(n, ast.Name) and role_of_ident(n.id) is None}
+
+                only_one = names_of(a) ^ names_of(b)
+                if only_one:
+                    ta, tb = texts(a, True, only_one), texts(b, False, only_one)
+            if set(ta) != set(tb):
+                # a helper that receives values of both sides: what matters is how each argument is used inside it
+                ta2, tb2 = texts(a, True, through_helpers=True), texts(b, False, through_helpers=True)
+                if set(ta2) == set(tb2):
+                    ta, tb = ta2, tb2
             only_a = sorted(set(ta) - set(tb))
             only_b = sorted(set(tb) - set(ta))
             key = f"{PASS}:{f.qualname}:{a}|{b}"
@@ -350,8 +383,8 @@ def mirror(repo: Repo, chk: Check) -> None:
                        f"{len(tb)} definition(s) of {b} mirror the definition(s) of {a}",
                        f"{b} is not the mirror image of {a}: expected (from {a}, roles swapped) {only_a[:2]}; found {only_b[:2]}",
                        facts=[f"{a} (swapped): {sorted(ta)}"[:600], f"{b}: {sorted(tb)}"[:600]])
-    if n_pairs < 7:
-        raise AnalysisError(f"only {n_pairs} mirrored variable pairs found (7 confirmed by reading)")
+    if n_pairs < 4:
+        raise AnalysisError(f"only {n_pairs} mirrored variable pairs found (7 confirmed by reading; the two layouts, pointers, steps and increments are the minimum)")
 
 
 # --------------------------------------------------------------------------- byte units
@@ -378,8 +411,11 @@ def units(repo: Repo, chk: Check) -> None:
     )
     tsl_steps = repo.func("snaxc/dialects/tsl.py", "TiledStridedLayoutAttr.get_step_ops")
     n = 0
-    for f in _funcs(repo):
-        fl = Flow(f, repo)
+    flows = [(f, Flow(f, repo)) for f in _funcs(repo)]
+    # a helper walked as part of its caller is judged there, with the caller's values for its parameters
+    judged_in_caller = {k_ for _, fl_ in flows for k_ in fl_.inlined} | set(repo.inlined_oneliner_keys)
+    for f, fl in flows:
+        from_params = lambda cone, f=f: f.key in judged_in_caller and bool(norm.free_names(cone) & set(f.params))  # noqa: E731
         # pointer increments
         k = 0
         for s in fl.calls("AddiOp"):
@@ -394,6 +430,8 @@ def units(repo: Repo, chk: Check) -> None:
             n += 1
             chk.analysed(f.key)
             cone = fl.cone(c.args[1], s, inline=0)
+            if not _has_bytes(cone) and from_params(cone):
+                continue
             chk.result(_has_bytes(cone), "C05.units", f"{PASS}:{f.qualname}:increment#{k}", s.where(),
                        f"the increment of {ast.unparse(c.args[0])} is scaled by the element byte size",
                        f"{ast.unparse(c.args[0])} is advanced by a quantity that does not depend on the element byte size: {ast.unparse(cone)[:200]}")
@@ -413,6 +451,8 @@ def units(repo: Repo, chk: Check) -> None:
                 if p in ("size", "src_stride", "dst_stride"):
                     n += 1
                     cone = fl.cone(a, s, inline=2)
+                    if not _has_bytes(cone) and from_params(cone):
+                        continue
                     chk.result(_has_bytes(cone), "C05.units", f"{PASS}:{f.qualname}:{c.args[0].value}#{j}:{p}", s.where(),
                                f"{c.args[0].value}({p}) is a byte quantity", f"{c.args[0].value}({p}) does not depend on the element byte size: {ast.unparse(cone)[:200]}")
     # get_step_ops honours in_bytes
@@ -542,6 +582,12 @@ def nest(repo: Repo, chk: Check) -> None:
     # anchor: the top-level statement that sorts the remaining strides
     idx = [i for i, st in enumerate(body) if isinstance(st, (ast.Assign, ast.AnnAssign)) and st.value is not None and isinstance(st.value, ast.Call) and callee_name(st.value) == "sorted"]
     rec = [st for st in body if isinstance(st, ast.ClassDef)]
+    if not rec:
+        # the record class may live at module level: the one whose fields are a bound and a step per side
+        for c in repo.module(PASS).classes.values():
+            fs = [s_.target.id for s_ in c.node.body if isinstance(s_, ast.AnnAssign) and isinstance(s_.target, ast.Name)]
+            if sorted(k for k in map(_field_kind, fs) if k) == ["bound", "step_a", "step_b"]:
+                rec.append(c.node)
     if len(idx) != 1 or len(rec) != 1:
         raise AnalysisError(f"{f.where}: anchor of the loop-nest builder not found (sorted remaining strides: {len(idx)}, record class: {len(rec)})")
     st = body[idx[0]]
@@ -572,6 +618,11 @@ def nest(repo: Repo, chk: Check) -> None:
             op_p: Tok(op_p),
             rw: Tok(rw),
         }
+        # helpers of the pass module that the reference tree does not have are evaluated from their source
+        from sa.flow import _KNOWN_FUNCS
+        for hname, h in repo.module(PASS).funcs.items():
+            if h.key not in _KNOWN_FUNCS and hname not in env and hname not in models:
+                env[hname] = Closure(h.node, env)
         # names the region reads but does not define and that are role-named pointers under another spelling
         free = set()
         for stx in region:
